@@ -4,6 +4,7 @@
 package main
 
 import (
+	"encoding/json"
 	"fmt"
 	"os"
 
@@ -41,11 +42,18 @@ func main() {
 	switch os.Args[1] {
 	case "constmerge":
 		p = constMerge()
+	case "keys":
+		var d progen.KeyParams
+		if err := json.Unmarshal([]byte(os.Args[2]), &d); err != nil {
+			panic(err)
+		}
+		p = progen.KeyFlow(d)
 	}
 	fmt.Println(p.MRO())
 	ref, err := progen.Interpret(p)
 	fmt.Println("ref err:", err)
-	res := psx.Run(p, psx.Schedule{}, psx.Options{})
+	res := psx.Run(p, psx.Schedule{}, psx.Options{KeepDir: os.Getenv("KEEP") != ""})
+	fmt.Println("dir:", res.Dir)
 	fmt.Println("state:", res.State, "err:", res.Err, res.FatalFq, res.FatalLog)
 	for _, j := range res.Jobs {
 		fmt.Println("job", j.Key, j.ArgsText)
